@@ -5,3 +5,4 @@ package history
 // Read-only accessors for harnesses in other packages.
 func VerifLen[T any](h *History[T]) int   { return len(h.elements) }
 func VerifIndex[T any](h *History[T]) int { return h.index }
+func VerifAt[T any](h *History[T], i int) T { return h.elements[i] }
